@@ -111,6 +111,19 @@ func NewSnapshotter(path string,
 	inCh := make(chan Event, eventChSize)
 	streamCh := make(chan Event, eventChSize)
 
+	// A crash during compaction, between removing the old snapshot and
+	// renaming the compacted one into place, leaves only the compacted file
+	// behind. That file is complete (it is synced and closed before the old
+	// snapshot is removed), so move it into place rather than starting from
+	// an empty snapshot.
+	if _, err := os.Stat(path); os.IsNotExist(err) {
+		if _, err := os.Stat(path + tmpExt); err == nil {
+			if err := os.Rename(path+tmpExt, path); err != nil {
+				return nil, nil, fmt.Errorf("failed to recover compacted snapshot: %v", err)
+			}
+		}
+	}
+
 	// Try to open the file
 	fh, err := os.OpenFile(path, os.O_RDWR|os.O_APPEND|os.O_CREATE, 0644)
 	if err != nil {
